@@ -121,6 +121,77 @@ func genLock(repo, out string) {
 	if leaseMs < 0 {
 		fail("kvlock.go", "defaultLeaseTimeout is not `<literal> * time.<unit>`")
 	}
+	// the order of the operations on l.future, the timers and the storage, per function (evaluation order:
+	// arguments before the call; function literals are not entered — they run later, as timer callbacks)
+	type skel struct {
+		fn  string
+		ops []string
+	}
+	var skels []skel
+	for _, d := range f.Decls {
+		fd, ok := d.(*ast.FuncDecl)
+		if !ok || fd.Body == nil {
+			continue
+		}
+		var ops []string
+		touches := false
+		var walk func(n ast.Node)
+		walk = func(n ast.Node) {
+			ast.Inspect(n, func(m ast.Node) bool {
+				switch x := m.(type) {
+				case *ast.FuncLit:
+					return false
+				case *ast.CallExpr:
+					// children first (receiver expression and arguments), then the call itself
+					walk(x.Fun)
+					for _, a := range x.Args {
+						walk(a)
+					}
+					fun := exprString(x.Fun)
+					switch {
+					case strings.HasSuffix(fun, ".future.Load"):
+						ops, touches = append(ops, "load"), true
+					case strings.HasSuffix(fun, ".future.Store"):
+						ops, touches = append(ops, "store"), true
+					case strings.HasSuffix(fun, ".future.CompareAndSwap"):
+						ops, touches = append(ops, "cas"), true
+					case strings.HasSuffix(fun, ".future.Swap"):
+						ops, touches = append(ops, "swap"), true
+					case fun == "timeout.Call":
+						ops, touches = append(ops, "arm"), true
+					case strings.HasSuffix(fun, ".Cancel"):
+						ops, touches = append(ops, "cancel"), true
+					case strings.HasSuffix(fun, ".Storage.Create"):
+						ops = append(ops, "Create")
+					case strings.HasSuffix(fun, ".Storage.CasByVersion"):
+						ops = append(ops, "CasByVersion")
+					case strings.HasSuffix(fun, ".Storage.Delete"):
+						ops = append(ops, "Delete")
+					case strings.HasSuffix(fun, ".Storage.WaitForVersionChange"):
+						ops = append(ops, "Wait")
+					case strings.HasSuffix(fun, ".Storage.Put") || strings.HasSuffix(fun, ".Storage.PutMany") || strings.HasSuffix(fun, ".Storage.Get") || strings.HasSuffix(fun, ".Storage.GetMany"):
+						ops = append(ops, fun[strings.LastIndex(fun, ".")+1:])
+					}
+					return false
+				}
+				return true
+			})
+		}
+		walk(fd.Body)
+		if touches {
+			skels = append(skels, skel{fd.Name.Name, ops})
+		}
+	}
+	sort.Slice(skels, func(i, j int) bool { return skels[i].fn < skels[j].fn })
+	var skelParts []string
+	for _, k := range skels {
+		q := make([]string, len(k.ops))
+		for i, o := range k.ops {
+			q[i] = strconv.Quote(o)
+		}
+		skelParts = append(skelParts, fmt.Sprintf("(%s, [%s])", strconv.Quote(k.fn), strings.Join(q, ", ")))
+	}
+	skelSrc := "[" + strings.Join(skelParts, ",\n   ") + "]"
 	natList := func(l []int) string {
 		p := make([]string, len(l))
 		for i, v := range l {
@@ -143,10 +214,15 @@ def deadlineFromFreshClock : Bool := %v
 def deadlineInsideRetryLoop : Bool := %v
 /-- number of record literals with an ExpiresAt found -/
 def recordLiterals : Nat := %d
+/-- per function that touches l.future / arms or cancels a timer: its operations on l.future (load, store, cas =
+CompareAndSwap, swap), timers (arm = timeout.Call, cancel) and the storage, in evaluation order -/
+def futureSkeleton : List (String × List String) :=
+  %s
 
 end LockConsts
-`, natList(acq), natList(sup), leaseMs, freshAll, inLoop, nLits)
+`, natList(acq), natList(sup), leaseMs, freshAll, inLoop, nLits, skelSrc)
 	writeIfChanged(filepath.Join(out, "LockConsts.lean"), []byte(src))
 	fc.Facts["lock.acquire_divs"] = acq
 	fc.Facts["lock.support_divs"] = sup
+	fc.Facts["lock.future_skeleton"] = skelParts
 }
